@@ -246,7 +246,7 @@ def first_connected(base, n):
     return T.connected_subsets(at, min_size=n, max_size=n)[0]
 
 
-def first_with_hanging(base, n):
+def first_with_hanging(base, n, count=1):
     """a connected n-cell sub-tissue in which some cell touches no internal interface (its pressure column is dropped) while
     the others still give a non-trivial system"""
     at = bases.get(base)
@@ -255,7 +255,7 @@ def first_with_hanging(base, n):
         sub = T.sub_tissue(at, S)
         internal = T.internal_interfaces(sub)
         touched = {c for ii in internal for c in (sub["I"][ii]["L"], sub["I"][ii]["R"])}
-        if len(internal) >= 3 and any(c not in touched for c in sub["C"]) and len(RT.reference_system(sub)["rows"]) >= 2:
+        if len(internal) >= 3 and sum(1 for c in sub["C"] if c not in touched) >= count and len(RT.reference_system(sub)["rows"]) >= 2:
             return S
     raise RuntimeError("no %d-cell sub-tissue of %s with a cell outside every internal interface" % (n, base))
 
@@ -283,6 +283,7 @@ def build(tier, seed):
                 _Counting("junction-perms-720", [["v5x5", None, M, 1]], 1, ["vperm720"]),
                 _Counting("insertion-orders-all", [["v5x5", None, M, 1]], 1, ["order_all"]),
                 _Counting("lattice-d1", [["square3x3", None, ["id"], 2]], 1, all_cl),
+                _Counting("two-cells-outside-d1", [["v5x5", first_with_hanging("v5x5", 7, 2), M, 2]], 1, ["orient", "cids", "order", "storage"]),
                 _Counting("mixed-point-counts-d1", [["v5x5", b6, M, ["mod3", 0, 3, 1]], ["lens", None, M, ["mod3", 2, 0, 1]]], 1, all_cl)]   # b6 contains a cell outside every internal interface
     b7 = first_connected("v6x5", 7)
     return [_Counting("labels-d2", [["v5x5", None, M, 2], ["v6x5", b7, M, 2], ["square3x3", None, ["id"], 2]], 2, all_cl),
@@ -292,4 +293,4 @@ def build(tier, seed):
             _Counting("insertion-orders-all", [["v5x5", None, M, 2], ["v6x5", None, M, 1]], 1, ["order_all"]),
             _Counting("labels-d3", [["v5x5", first_connected("v5x5", 5), M, 2]], 3, all_cl),
             _Counting("mixed-point-counts-d2", [["v5x5", None, M, ["mod3", 0, 3, 1]], ["lens", None, M, ["mod3", 2, 0, 1]], ["fan5", None, M, ["mod3", 1, 0, 4]]], 2, all_cl),
-            _Counting("hanging-cell-d2", [["v6x5", first_with_hanging("v6x5", 8), ["mc", 0.12, 0.05], 1]], 2, all_cl)]
+            _Counting("hanging-cell-d2", [["v6x5", first_with_hanging("v6x5", 8), ["mc", 0.12, 0.05], 1], ["v5x5", first_with_hanging("v5x5", 7, 2), M, 2], ["v6x5", first_with_hanging("v6x5", 9, 3), M, 1]], 2, all_cl)]
